@@ -16,7 +16,9 @@ def _cls(r):
 
 
 def _required():
-    return ["probe/" + k for k in REF_KINDS] + ["probe/x_anno_elem", "extras/dir-other", "extras/versioned", "extras/mismatch"]
+    return (["probe/" + k for k in REF_KINDS] + ["probe/x_anno_elem", "extras/dir-other", "extras/versioned", "extras/mismatch", "extras/pkginfo"]
+            # the same renames stated over three namespaces, the jar remapped from the second to the third
+            + ["via/" + k for k in ("field_decl", "method_decl", "insn_field", "insn_method", "handle", "indy_nt", "enclosing_method")])
 
 
 def _cls_i2s(rec):
